@@ -210,16 +210,36 @@ func c13Timed(f func() []string) (out []string, term bool, panicked interface{})
 func c13SplitEvent(text string, pieces []string, term bool, unit string, limit, cpt int, api, tag string) Event {
 	valid := make([]bool, len(pieces))
 	pc := make([]int, len(pieces))
+	lm := make([]int, len(pieces))
+	u := c13UnitNames[unit]
+	calc := rag.NewSizeCalculatorWithConfig(c13SizeConfig(unit, limit, cpt))
 	for i, p := range pieces {
 		valid[i] = utf8.ValidString(p)
 		pc[i] = utf8.RuneCountInString(strings.TrimSpace(p))
+		lm[i] = calc.Calculate(strings.TrimSpace(p)).GetByUnit(u) // the library's own metric of the piece
 	}
 	ranges, found := c13Locate(text, pieces)
 	if !found {
 		pc = pc[:len(ranges)]
 	}
-	return Event{"event": "Split", "t": c13RunsOf(text), "r": ranges, "pc": pc, "valid": valid, "found": found, "term": term,
+	return Event{"event": "Split", "t": c13RunsOf(text), "r": ranges, "pc": pc, "lm": lm, "valid": valid, "found": found, "term": term,
 		"unit": unit, "limit": limit, "cpt": cpt, "api": api, "tag": tag, "npieces": len(pieces)}
+}
+
+// c13MetricsEvent: what every size accessor of one calculator says about one text.
+func c13MetricsEvent(cfg rag.SizeConfig, text, unit string, limit int, what string) Event {
+	calc := rag.NewSizeCalculatorWithConfig(cfg)
+	units := []rag.SizeUnit{rag.SizeUnitCharacters, rag.SizeUnitTokens, rag.SizeUnitWords, rag.SizeUnitSentences, rag.SizeUnitParagraphs}
+	m := calc.Calculate(text)
+	chk := calc.Check(text)
+	c, g, k := make([]int, 5), make([]int, 5), make([]int, 5)
+	for i, u := range units {
+		c[i], g[i], k[i] = m.GetByUnit(u), calc.GetSize(text, u), chk.Metrics.GetByUnit(u)
+	}
+	return Event{"event": "Metrics", "unit": unit, "limit": limit, "min": cfg.Min.Value, "what": what, "bytes": len(text), "chars": utf8.RuneCountInString(text),
+		"m": map[string]interface{}{"calc": c, "get": g, "check": k,
+			"above": calc.IsAboveMax(text), "exceeds": calc.ExceedsLimit(text, cfg.Max), "below": calc.IsBelowMin(text),
+			"checkOver": !chk.IsValid && chk.SuggestedAction == rag.SizeActionTruncate}}
 }
 
 func c13Tag(text string) string {
@@ -287,7 +307,17 @@ type c13Probe struct {
 	D2 int `json:"d2"`
 }
 
+// c13Sweep: a text whose byte length and character count differ (SplitterProf.tla).
+type c13Sweep struct {
+	Cuts int    `json:"cuts"`
+	Zone string `json:"zone"`
+	W    int    `json:"w"`
+	E    int    `json:"e"`
+	D    int    `json:"d"`
+}
+
 type c13Profile struct {
+	Sweep *c13Sweep `json:"sweep,omitempty"`
 	Probe *c13Probe `json:"probe,omitempty"`
 	Prof  []c13Seg  `json:"prof"`
 	Unit  string    `json:"unit"`
@@ -373,6 +403,75 @@ func c13ProbeRuns(l int, pr c13Probe) [][3]int {
 	return runs
 }
 
+// c13AsciiWords: exactly n bytes of 9-letter words (a space at every 10th byte);
+// closed = the last byte may be that space (the block is followed by more text).
+func c13AsciiWords(n int, closed bool) [][3]int {
+	var runs [][3]int
+	for p := 0; p < n; p++ {
+		k := 0
+		if p%10 == 9 && (closed || p != n-1) {
+			k = 1
+		}
+		if m := len(runs); m > 0 && runs[m-1][1] == k {
+			runs[m-1][2]++
+		} else {
+			runs = append(runs, [3]int{1, k, 1})
+		}
+	}
+	return runs
+}
+
+// c13SweepRuns: cuts x stride bytes of ASCII words (whole pieces), then a last
+// segment of mb + d bytes in which e characters are w bytes wide, standing at its
+// head, around byte "stride" of the segment (where a further cut would fall) or at
+// its tail.  Words never exceed 10 bytes.
+func c13SweepRuns(mb int, sw c13Sweep) [][3]int {
+	stride := 10 * ((mb + 1) / 10)
+	runs := c13AsciiWords(sw.Cuts*stride, true)
+	seg := mb + sw.D
+	// the block of wide characters: words of at most 9 bytes
+	per := 9 / sw.W
+	var block [][3]int
+	bb := 0
+	for left := sw.E; left > 0; left -= per {
+		n := per
+		if left < per {
+			n = left
+		}
+		if bb > 0 {
+			block = append(block, [3]int{1, 1, 1})
+			bb++
+		}
+		block = append(block, [3]int{sw.W, 0, n})
+		bb += n * sw.W
+	}
+	before := 0 // bytes in front of the block, including the separating space
+	switch sw.Zone {
+	case "cut":
+		before = mb - bb/2 - 1 // the block straddles the limit position
+	case "tail":
+		before = seg - bb
+	}
+	if before+bb > seg {
+		before = seg - bb
+	}
+	if before < 2 {
+		before = 0
+	}
+	if before > 0 {
+		runs = append(runs, c13AsciiWords(before-1, false)...)
+		runs = append(runs, [3]int{1, 1, 1})
+	}
+	runs = append(runs, block...)
+	if after := seg - before - bb; after >= 2 {
+		runs = append(runs, [3]int{1, 1, 1})
+		runs = append(runs, c13AsciiWords(after-1, false)...)
+	} else if after == 1 {
+		runs = append(runs, [3]int{1, 0, 1})
+	}
+	return runs
+}
+
 func c13MaxBytes(unit string, limit, cpt int) int {
 	switch unit {
 	case "tokens":
@@ -404,6 +503,9 @@ func c13RunProfile(pr c13Profile, raw []byte, withChunkers bool) Result {
 	if pr.Probe != nil {
 		runs = c13ProbeRuns(mb, *pr.Probe)
 	}
+	if pr.Sweep != nil {
+		runs = c13SweepRuns(mb, *pr.Sweep)
+	}
 	text := c13Render(runs)
 	tag := c13Tag(text)
 	cfg := c13SizeConfig(pr.Unit, pr.Limit, pr.Cpt)
@@ -419,6 +521,12 @@ func c13RunProfile(pr c13Profile, raw []byte, withChunkers bool) Result {
 	}
 	res.Nontrivial = len(pieces) >= 2
 	res.Events = append(res.Events, c13SplitEvent(text, pieces, term, pr.Unit, pr.Limit, pr.Cpt, "SplitToSize", tag))
+	// the size accessors on the whole text and on the last pieces (the remainder is
+	// where a measure that disagrees with the others shows)
+	res.Events = append(res.Events, c13MetricsEvent(cfg, text, pr.Unit, pr.Limit, "text"))
+	for k := len(pieces) - 1; k >= 0 && k >= len(pieces)-2; k-- {
+		res.Events = append(res.Events, c13MetricsEvent(cfg, pieces[k], pr.Unit, pr.Limit, fmt.Sprintf("piece %d of %d", k+1, len(pieces))))
+	}
 	// reuse: ONE calculator splits the text, a shorter one, a longer one and the text
 	// again (other methods called in between); every answer must be a fresh calculator's
 	if len(runs) >= 2 && h%2 == 0 {
